@@ -240,6 +240,122 @@ theorem collect_extends {κ ν} (tbl : List (Nat × κ)) (pv : κ → Bytes → 
         obtain ⟨v', hv'⟩ := h2 e he
         exact ⟨v', List.mem_cons_of_mem _ hv'⟩
 
+/-! ### the in-order scan: position reached, elements it does not recognise -/
+
+/-- Position (`field_pos`) of the in-order scan of `TlvModel.parse` after elements with these type numbers,
+    started at `pos`: a type found at index `i ≥ pos` moves the scan to `i + 1`, any other type leaves it
+    where it is. -/
+def scanPos {κ} (tbl : List (Nat × κ)) : List Nat → Nat → Nat
+  | [], pos => pos
+  | t :: r, pos =>
+    match findFrom tbl pos t with
+    | some (i, _) => scanPos tbl r (i + 1)
+    | none => scanPos tbl r pos
+
+theorem scanPos_ge {κ} (tbl : List (Nat × κ)) (ts : List Nat) : ∀ pos, pos ≤ scanPos tbl ts pos := by
+  induction ts with
+  | nil => intro pos; exact Nat.le_refl _
+  | cons t r ih =>
+    intro pos
+    simp only [scanPos]
+    cases hf : findFrom tbl pos t with
+    | none => exact ih pos
+    | some ik =>
+      obtain ⟨i, k⟩ := ik
+      have := (findFrom_spec _ _ _ _ _ hf).1
+      have := ih (i + 1)
+      simp only
+      omega
+
+theorem scanPos_append {κ} (tbl : List (Nat × κ)) (a b : List Nat) : ∀ pos,
+    scanPos tbl (a ++ b) pos = scanPos tbl b (scanPos tbl a pos) := by
+  induction a with
+  | nil => intro pos; rfl
+  | cons t r ih =>
+    intro pos
+    simp only [List.cons_append, scanPos]
+    cases findFrom tbl pos t with
+    | none => exact ih pos
+    | some ik => exact ih _
+
+/-- no field at or after index `q` has type `t`: the scan at or beyond `q` does not recognise `t` -/
+theorem findFrom_none_of_drop {κ} (tbl : List (Nat × κ)) (q pos t : Nat) (h : ∀ f ∈ tbl.drop q, f.1 ≠ t)
+    (hq : q ≤ pos) : findFrom tbl pos t = none := by
+  cases hf : findFrom tbl pos t with
+  | none => rfl
+  | some ik =>
+    obtain ⟨hp, hget⟩ := findFrom_spec _ _ _ _ _ hf
+    have : (tbl.drop q)[ik.1 - q]? = some (t, ik.2) := by
+      rw [List.getElem?_drop]
+      have : q + (ik.1 - q) = ik.1 := by omega
+      rw [this]; exact hget
+    exact absurd rfl (h _ (List.mem_of_getElem? this))
+
+theorem mem_drop_of_getElem? {α} (l : List α) (q i : Nat) (x : α) (h : l[i]? = some x) (hq : q ≤ i) : x ∈ l.drop q := by
+  have : (l.drop q)[i - q]? = some x := by
+    rw [List.getElem?_drop]
+    have : q + (i - q) = i := by omega
+    rw [this]; exact h
+  exact List.mem_of_getElem? this
+
+/-- An element that the scan does not recognise where it stands (its type is not a field at or after the
+    position reached) is invisible to a decoder that ignores unrecognised elements: deleting it changes
+    nothing. -/
+theorem collect_drop_unrecognised {κ ν} (tbl : List (Nat × κ)) (pv : κ → Bytes → Nat → Except PyErr ν)
+    (t : Nat) (v : Bytes) (rest : List (Nat × Bytes)) (pre : List (Nat × Bytes)) : ∀ pos acc,
+    findFrom tbl (scanPos tbl (pre.map (·.1)) pos) t = none →
+    collect tbl pv true (pre ++ (t, v) :: rest) pos acc = collect tbl pv true (pre ++ rest) pos acc := by
+  induction pre with
+  | nil =>
+    intro pos acc h
+    simp only [List.map_nil, scanPos] at h
+    simp [collect, h]
+  | cons e r ih =>
+    intro pos acc h
+    obtain ⟨t', v'⟩ := e
+    simp only [List.map_cons, scanPos] at h
+    simp only [List.cons_append, collect]
+    cases hf : findFrom tbl pos t' with
+    | none =>
+      rw [hf] at h
+      simp only [Bool.not_true, Bool.and_false, Bool.false_eq_true, if_false]
+      exact ih pos acc h
+    | some ik =>
+      obtain ⟨i, k⟩ := ik
+      rw [hf] at h
+      simp only
+      cases pv k v' v'.length with
+      | error e => rfl
+      | ok x => exact ih _ _ h
+
+/-- elements of types the format does not have are skipped wherever the scan stands -/
+theorem collect_skip_unknown {κ ν} (tbl : List (Nat × κ)) (pv : κ → Bytes → Nat → Except PyErr ν) (ic : Bool)
+    (pre : List (Nat × Bytes)) (hp : ∀ h ∈ pre, (∀ k, (h.1, k) ∉ tbl) ∧ (h.1 % 2 = 0 ∨ ic = true))
+    (rest : List (Nat × Bytes)) : ∀ pos acc,
+    collect tbl pv ic (pre ++ rest) pos acc = collect tbl pv ic rest pos acc := by
+  induction pre with
+  | nil => intro pos acc; rfl
+  | cons h r ih =>
+    intro pos acc
+    obtain ⟨t, v⟩ := h
+    have h0 := hp (t, v) (by simp)
+    have hnone : findFrom tbl pos t = none := by
+      cases hf : findFrom tbl pos t with
+      | none => rfl
+      | some ik =>
+        obtain ⟨_, hget⟩ := findFrom_spec _ _ _ _ _ hf
+        exact absurd (List.mem_of_getElem? hget) (h0.1 ik.2)
+    have hc : (decide (t % 2 = 1) && !ic) = false := by
+      rcases h0.2 with h | h
+      · have : ¬ (t % 2 = 1) := by omega
+        simp [this]
+      · simp [h]
+    simp only [List.cons_append, collect, hnone, hc, Bool.false_eq_true, if_false]
+    exact ih (fun h hm => hp h (List.mem_cons_of_mem _ hm)) pos acc
+
+theorem wireOf_length_append (a b : List (Nat × Bytes)) : (wireOf (a ++ b)).length = (wireOf a).length + (wireOf b).length := by
+  rw [wireOf_append, List.length_append]
+
 /-! ### `pack_uint_bytes` -/
 
 theorem packUint_length (r : Nat) :
